@@ -849,3 +849,59 @@ def modcombine(repo):
         raise AnalysisError(f"only {res.instances} gcd combinations of moduli recognised")
     res.analysed = [m.rel]
     return res
+
+
+POWCAP_REVIEWED = {
+    ("compiler/front_end/constraints.py", "_check_that_enum_values_are_representable", "max_enum_size"):
+        "the value of [maximum_bits], which attribute_checker has verified to lie in 1..64 before check_constraints runs (R-BOUNDARY folds that test)",
+    ("compiler/back_end/cpp/header_generator.py", "_generate_structure_virtual_field_methods", "bits"):
+        "the digits of a C++ type name matched by `::std::(u?)int(\\d+)_t`, produced by _cpp_integer_type_for_range from (32, 64)",
+}
+
+
+def powcap(repo):
+    """R-POWCAP (C16): `2 ** n` with n taken from the source text costs time and memory exponential in the number of
+    digits the user typed: `0 [+40000000]  UInt  x` made expression_bounds compute and print a 12-million-digit number
+    before the width could be rejected.  Every exponentiation (and left shift) in the compiler whose exponent is not a
+    literal has an exponent that is bounded above on the way there: a terminating guard `n > K` / `n >= K` (possibly in a
+    disjunction) earlier in the function, a loop variable over a tuple of literals, or a reviewed source (table)."""
+    res = RuleResult("R-POWCAP")
+    seen = set()
+    for m in repo.compile_path_modules():
+        for f in m.funcs.values():
+            pows = [n for n in walk_no_nested_funcs(f.node) if isinstance(n, ast.BinOp) and isinstance(n.op, (ast.Pow, ast.LShift))
+                    and not isinstance(n.right, ast.Constant)]
+            if not pows:
+                continue
+            # upper-bound guards: `if <...> v > K <...>: return/raise/continue` (test may be an `or` chain)
+            capped = {}
+            for n in walk_no_nested_funcs(f.node):
+                if isinstance(n, ast.If) and n.body and isinstance(n.body[-1], (ast.Return, ast.Raise, ast.Continue)):
+                    tests = n.test.values if isinstance(n.test, ast.BoolOp) and isinstance(n.test.op, ast.Or) else [n.test]
+                    for t in tests:
+                        if isinstance(t, ast.Compare) and len(t.ops) == 1 and isinstance(t.left, ast.Name) and isinstance(t.ops[0], (ast.Gt, ast.GtE)) \
+                                and isinstance(t.comparators[0], ast.Constant) and isinstance(t.comparators[0].value, int):
+                            capped[t.left.id] = (t.comparators[0].value, n.lineno)
+                if isinstance(n, ast.For) and isinstance(n.target, ast.Name) and isinstance(n.iter, (ast.Tuple, ast.List)) \
+                        and all(isinstance(e, ast.Constant) for e in n.iter.elts):
+                    capped[n.target.id] = (max(e.value for e in n.iter.elts), n.lineno)
+            for p in pows:
+                names = sorted({x.id for x in ast.walk(p.right) if isinstance(x, ast.Name)})
+                res.instances += 1
+                for v in names:
+                    if v in capped and capped[v][1] <= p.lineno and capped[v][0] <= 4096:
+                        continue
+                    key = (m.rel, f.qualname, v)
+                    if key in POWCAP_REVIEWED:
+                        seen.add(key)
+                        continue
+                    res.add(f"{m.rel}|{f.qualname}|{v}", f"{f.qualname}: `{ast.unparse(p)[:50]}` raises to a power taken from `{v}` with no upper "
+                            "bound on the path: a width mistyped as 40000000 makes the compiler build a number with millions of digits "
+                            "(no diagnostic within hours) before the width is rejected", m.rel, p.lineno, f.qualname)
+                if not names:
+                    res.add(f"{m.rel}|{f.qualname}|expr", f"{f.qualname}: exponent `{ast.unparse(p.right)[:40]}` not understood", m.rel, p.lineno, f.qualname)
+    for key in sorted(set(POWCAP_REVIEWED) - seen):
+        raise AnalysisError(f"R-POWCAP: reviewed site {key} no longer exists")
+    if res.instances < 8 and not res.findings:
+        raise AnalysisError(f"only {res.instances} exponentiations found")
+    return res
